@@ -8,6 +8,7 @@ import Compass.Proofs.Num
 import Compass.Model.Instance
 import Compass.Proofs.SearchLimits
 import Compass.Proofs.Build
+import Compass.Proofs.SearchTermination
 
 namespace Compass
 namespace C10
@@ -125,6 +126,121 @@ theorem success_monotone_in_limits (c : Config α) (m₂ : TermM)
     (h : runVertexOriented c.inst source target sched = .ok r) :
     runVertexOriented ({ c with term := m₂ } : Config α).inst source target sched = .ok r :=
   config_success_monotone c m₂ hmono h
+
+end
+
+/-! ### The search ends by itself: schedule existence and termination without any limit
+
+Every other search theorem speaks about a pop schedule that is given and accepted.  Here: such
+schedules exist, and a search under the Dijkstra discipline ends after at most |V| expansions
+whatever limit is or is not configured.  `Ended r` (`Proofs/SearchTermination.lean`): `r` is a result,
+"no path", the explicit `terminated` (or the frequency-0 panic), or the error of a component model —
+the ways the code ends; the model's other two outcomes are the replay errors `scheduleExhausted`
+("accepted so far, the loop wants another pop") and `badSchedule`. -/
+
+section
+open SearchLimits SearchTermination
+variable {α : Type} [Field α] [LinearOrder α] [IsStrictOrderedRing α] [Lit α] [LawfulLit α]
+
+/-- PROGRESS.  At every loop head a run can reach — any configuration, weight factor, schedule so
+far — a non-empty frontier has an entry of minimal priority: some pop is accepted, the search is
+never stuck. -/
+theorem search_never_stuck (c : Config α) {source : Nat} {target : Option Nat} {pre : List Nat}
+    {f0 : α} {h : SState α} (hr : Reach c.inst source target pre (initState source f0) h)
+    (hne : h.queue.isEmpty = false) : ∃ v, popOk h.queue v = true :=
+  progress hr hne
+
+/-- the outcome `scheduleExhausted` of the model means exactly: every scheduled pop was accepted and
+completed a turn, and the loop is not finished (limit test passed, frontier not empty) -/
+theorem exhausted_means_accepted_unfinished (c : Config α) {source : Nat} {target : Option Nat}
+    (sched : List Nat) (s : SState α) :
+    runLoop c.inst source target sched s = .error .scheduleExhausted ↔
+      ∃ h, Reach c.inst source target sched s h ∧ c.term.test h.solSize h.iters = .ok () ∧
+        h.queue.isEmpty = false :=
+  exhausted_iff_reach (config_noSchedErr c) sched s
+
+/-- TERMINATION, Dijkstra (`weight_factor = 0`), no limit needed.  Any traversal, access (turn
+delays), cost, frontier (turn restrictions) and termination model, forward or reverse, with or
+without destination; adjacency consistent with the edge list, all vertex ids below `c.nV`.
+(1) There is a schedule of at most `|V| + 1` pops on which the search ends the way the code ends.
+(2) Every accepted, unfinished schedule — whatever tie-breaking produced it — has at most `|V|`
+pops and extends to a schedule of at most `|V| + 1` pops on which the search ends.
+(3) A returned result performed at most `|V|` expansions. -/
+theorem dijkstra_search_terminates (c : Config α) (hadj : c.AdjConsistent) (hwf : c.wf = some 0)
+    {source : Nat} (hsrc : source < c.nV) (hV : c.VerticesBelow c.nV) (target : Option Nat) :
+    (∃ sched, sched.length ≤ c.nV + 1 ∧ Ended (c.runVertex source target sched)) ∧
+    (∀ pre, c.runVertex source target pre = .error .scheduleExhausted →
+      pre.length ≤ c.nV ∧ ∃ ext, (pre ++ ext).length ≤ c.nV + 1 ∧
+        Ended (c.runVertex source target (pre ++ ext))) ∧
+    ∀ sched r, c.runVertex source target sched = .ok r → r.iterations ≤ c.nV :=
+  config_dijkstra_terminates c hadj hwf hsrc hV target
+
+/-- the same for a search without destination, any weight factor (the loop then adds `Cost::ZERO`
+as estimate) -/
+theorem tree_search_terminates (c : Config α) (hadj : c.AdjConsistent)
+    {source : Nat} (hsrc : source < c.nV) (hV : c.VerticesBelow c.nV) :
+    (∃ sched, sched.length ≤ c.nV + 1 ∧ Ended (c.runVertex source none sched)) ∧
+    (∀ pre, c.runVertex source none pre = .error .scheduleExhausted →
+      pre.length ≤ c.nV ∧ ∃ ext, (pre ++ ext).length ≤ c.nV + 1 ∧
+        Ended (c.runVertex source none (pre ++ ext))) ∧
+    ∀ sched r, c.runVertex source none sched = .ok r → r.iterations ≤ c.nV :=
+  config_tree_search_terminates c hadj hsrc hV
+
+/-- the same for A\* whenever the estimate is a consistent function `H` of the vertex
+(`SearchDiscipline.Heur`: along every accepted traversal it drops by at most the cost charged) -/
+theorem consistent_astar_search_terminates (c : Config α) (hadj : c.AdjConsistent) {H : Nat → α}
+    {source : Nat} (hsrc : source < c.nV) (hV : c.VerticesBelow c.nV) {target : Option Nat}
+    (hH : SearchDiscipline.Heur c.inst target.isSome H) :
+    (∃ sched, sched.length ≤ c.nV + 1 ∧ Ended (c.runVertex source target sched)) ∧
+    (∀ pre, c.runVertex source target pre = .error .scheduleExhausted →
+      pre.length ≤ c.nV ∧ ∃ ext, (pre ++ ext).length ≤ c.nV + 1 ∧
+        Ended (c.runVertex source target (pre ++ ext))) ∧
+    ∀ sched r, c.runVertex source target sched = .ok r → r.iterations ≤ c.nV :=
+  config_terminates_of_heur c hadj hsrc hV hH
+
+/-- … which holds of the configuration's own estimate under the premises of C02's
+`estimate_admissible`: distance model on a metrically consistent great-circle table, weight factor
+in `[0, 1]` … -/
+theorem astar_distance_search_terminates (c : Config α) (h : c.EdgeLocal) {du : DistanceUnit}
+    {t : Nat} (M : c.DistanceMetric du t) {source : Nat} (hsrc : source < c.nV)
+    (hV : c.VerticesBelow c.nV) :
+    (∃ sched, sched.length ≤ c.nV + 1 ∧ Ended (c.runVertex source (some t) sched)) ∧
+    (∀ pre, c.runVertex source (some t) pre = .error .scheduleExhausted →
+      pre.length ≤ c.nV ∧ ∃ ext, (pre ++ ext).length ≤ c.nV + 1 ∧
+        Ended (c.runVertex source (some t) (pre ++ ext))) ∧
+    ∀ sched r, c.runVertex source (some t) sched = .ok r → r.iterations ≤ c.nV :=
+  config_astar_distance_terminates c h M hsrc hV
+
+/-- … and speed-table model (`Config.SpeedMetric`) -/
+theorem astar_speed_search_terminates (c : Config α) (h : c.EdgeLocal)
+    {su : SpeedUnit} {du : DistanceUnit} {tu : TimeUnit} {ms : α} {table : List α} {t : Nat}
+    (M : c.SpeedMetric su du tu ms table t) {source : Nat} (hsrc : source < c.nV)
+    (hV : c.VerticesBelow c.nV) :
+    (∃ sched, sched.length ≤ c.nV + 1 ∧ Ended (c.runVertex source (some t) sched)) ∧
+    (∀ pre, c.runVertex source (some t) pre = .error .scheduleExhausted →
+      pre.length ≤ c.nV ∧ ∃ ext, (pre ++ ext).length ≤ c.nV + 1 ∧
+        Ended (c.runVertex source (some t) (pre ++ ext))) ∧
+    ∀ sched r, c.runVertex source (some t) sched = .ok r → r.iterations ≤ c.nV :=
+  config_astar_speed_terminates c h M hsrc hV
+
+end
+
+/-! Non-vacuity: `exC` (five vertices, Dijkstra, a cycle, self loops, an isolated vertex) meets the
+premises; the accepted schedule `[0, 1, 2, 3]` of its run to vertex 3 has 4 ≤ 5 + 1 pops, and the
+unfinished schedule `[0, 1]` is of the kind clause (2) extends. -/
+section
+open ConfigUniform.Example SearchTermination
+
+example : exC.VerticesBelow exC.nV := by decide
+
+example : (∃ sched, sched.length ≤ 6 ∧ Ended (exC.runVertex 0 (some 3) sched)) ∧
+    (∀ pre, exC.runVertex 0 (some 3) pre = .error .scheduleExhausted →
+      pre.length ≤ 5 ∧ ∃ ext, (pre ++ ext).length ≤ 6 ∧ Ended (exC.runVertex 0 (some 3) (pre ++ ext))) ∧
+    ∀ sched r, exC.runVertex 0 (some 3) sched = .ok r → r.iterations ≤ 5 :=
+  dijkstra_search_terminates exC exC_edgeLocal.adj rfl (by decide) (by decide) (some 3)
+
+example : ConfigUniform.Example.errOf (exC.runVertex 0 (some 3) [0, 1]) = some .scheduleExhausted := by
+  decide +kernel
 
 end
 
